@@ -114,6 +114,12 @@ class KTHierarchy:
         # check that sbi only has correlation functions of Lorentz type
         for ii in range(self.nbath):
             cc = self.sbi.CC.get_correlation_function(ii,ii)
+            # one hierarchy index per bath stands for one exponential term;
+            # a bath made of several components cannot be represented
+            if len(cc.params) != 1:
+                raise Exception("HEOM is implemented for baths with a single"
+                                +" component; bath "+str(ii)+" has "
+                                +str(len(cc.params)))
             prms = cc.params[0]
             if prms["ftype"] == CorrelationFunction.allowed_types[1]:
                 tp = CorrelationFunction.allowed_types[1]
